@@ -54,6 +54,14 @@ def check(prog: Program, run: Run) -> None:
              "candidate loop is left only when a match has been recorded", floor=6)
     run.rule("C14.R3", "every response object is tried and a value is compared according to "
              "its decoded type; absence is tested by identity", floor=5)
+    run.rule("C14.R4", "the pattern parsers read the addressing flag and the expected values "
+             "completely: xsd:boolean text is converted for all four spellings, optional elements "
+             "are read independently", floor=3)
+    from . import common
+    PARSERS = ["odxtools/matching*.py", "odxtools/*variantpattern.py", "odxtools/odxtypes.py"]
+    common.g8_xsd_boolean(prog, run, "C14.R4", PARSERS)
+    common.g7_independent_elements(prog, run, "C14.R4", PARSERS, choices=[
+        {"OUT-PARAM-IF-SNREF", "OUT-PARAM-IF-SNPATHREF"}])
     f = prog.func("VariantMatcher.request_loop")
     fn = f.node
     cfg = CFG(fn)
